@@ -12,6 +12,7 @@ Streams
 from harness.props import _joins as J
 
 PID = "C09"
+TRANSLATE = ["EqJoinIndex.v"]    # translator tie: the right-side hash index loops regenerated from /repo (coq/gen_proofs/EqJoinIndex.v)
 PRELUDE = J.PRELUDE_FMT % PID
 FAILING = "C09.failing"
 SHARD = 300
